@@ -54,12 +54,13 @@ def print_thm(th):
     """Print the given theorem with highlight."""
     typecheck.checkinstance('print_thm', th, Thm)
 
-    turnstile = pprint.N("⊢") if settings.unicode else pprint.N("|-")
-    if th.hyps:
-        str_hyps = commas_join(print_term(hyp) for hyp in th.hyps)
-        return str_hyps + pprint.N(" ") + turnstile + pprint.N(" ") + print_term(th.prop)
-    else:
-        return turnstile + pprint.N(" ") + print_term(th.prop)
+    with global_setting(line_length=None):
+        turnstile = pprint.N("⊢") if settings.unicode else pprint.N("|-")
+        if th.hyps:
+            str_hyps = commas_join(print_term(hyp) for hyp in th.hyps)
+            return str_hyps + pprint.N(" ") + turnstile + pprint.N(" ") + print_term(th.prop)
+        else:
+            return turnstile + pprint.N(" ") + print_term(th.prop)
 
 def print_extension(ext):
     typecheck.checkinstance('print_extension', ext, extension.Extension)
